@@ -135,6 +135,9 @@ def run(rep: core.Report):
     _r19d(rep)
     _r19e(rep)
     _r19h(rep)
+    from rules import shared_bcast
+
+    shared_bcast.run(rep, "R19i", ["phonopy/phonon/thermal_displacement.py", "phonopy/phonon/random_displacements.py"])
     _r19f(rep)
     _r19g(rep)
     # R19c
